@@ -245,6 +245,9 @@ func mitmClass(s *Scenario) string {
 	if v == "h2_connect" {
 		return "h2_upstream_dial_failure+alpn_h2"
 	}
+	if v == "h2_relay" {
+		return h2RelayClass(s)
+	}
 	switch {
 	case v == "origin_form_no_host" || v == "origin_form_empty_host" || v == "origin_form_odd_host_9":
 		v = "connect_without_host"
@@ -273,6 +276,9 @@ func mitmClass(s *Scenario) string {
 }
 
 func runMITMStream(s *Scenario, kind string, quiet time.Duration) *runOut {
+	if s.Script == "h2_relay" {
+		return runH2Relay(s, kind, quiet)
+	}
 	out := &runOut{}
 	class := "mitm_client_stream:" + mitmClass(s)
 	report := func(sym, detail string) {
